@@ -44,4 +44,17 @@ theorem C08_gen_configCallSites :
     Generated.configCallSites.map (fun sites => configForwarded sites && requiredConfigSites.all sites.contains) = some true := by
   decide
 
+/-- Every constructor that takes a configuration keeps it (itself, or through the base-class constructor it forwards
+    it to) in the attribute its methods read: `SimpleJSONRPCDispatcher`, `SimpleJSONRPCServer`, `PooledJSONRPCServer`
+    and `CGIJSONRPCRequestHandler` in `json_config`; the proxy, the batch helpers and the transports in `_config`;
+    `Fault` in `config`. -/
+theorem C08_gen_configSinks : Generated.configSinks = some JsonClass.configSinks := by decide
+
+/-- Every other hand-over of a configuration (transports built by the proxy, batch helpers, `validate_request`,
+    `_dispatch` — also when handed to the notification pool —, `_method_exception_fault`) passes the configuration at
+    hand, and the hand-overs on the path of a call, a batch and a served request exist. -/
+theorem C08_gen_configPassing :
+    Generated.configPassing.map (fun sites => configPassed sites && requiredPassing.all sites.contains) = some true := by
+  decide
+
 end JRV.Props
